@@ -201,6 +201,8 @@ impl Mon {
         self.rxs[r].tainted = true;
         if self.rxs[r].inherits_closed_subs {
           self.emit(BOTH, INHERIT_SIG, format!("{INHERIT_MSG}: receiver {r} obtained ({t},{v}) which the contract does not owe it"));
+        } else if closed_handle && self.rxs[r].resub_after_close && front.is_none() {
+          self.emit(BOTH, INHERIT_SIG, format!("subscribe() was accepted on closed receiver {r}: it obtained ({t},{v}) published after its close"));
         } else if closed_handle && front.is_none() {
           self.emit(ONLY08, "topic:closed-receiver-still-receives", format!("receiver {r} was closed (subscriptions cleared) yet obtained ({t},{v}) published afterwards"));
         } else {
